@@ -149,6 +149,16 @@ def compare_tree(d, m, schema, t, where, out, is_consumer, root_invalidation):
             if sorted(map(str, it["vi"])) != sorted(map(str, e_vi)) or it["vv"] != len(e_vi):
                 out.append(("valid_items_wrong", f"{where} at t={t}: valid_items() lists {it['vi']} ({it['vv']} valid_values) but the children reading valid=true are {e_vi}", dict(feats)))
                 return
+    if k in ("TSB", "TSL") and "ch" in d and d.get("v") is True and isinstance(d.get("val"), (dict, list)):
+        # the parent's own whole value() agrees with what its valid scalar children read
+        subs_ = [cs for _, cs in schema[1]] if k == "TSB" else [schema[1]] * len(d["ch"])
+        names_ = [n for n, _ in schema[1]] if k == "TSB" else list(range(len(d["ch"])))
+        for nm_, cd_, cs_ in zip(names_, d["ch"], subs_):
+            if cs_[0] == "TS" and cd_.get("v") is True:
+                pv = d["val"].get(nm_) if isinstance(d["val"], dict) else (d["val"][nm_] if nm_ < len(d["val"]) else None)
+                if pv != cd_.get("val"):
+                    out.append(("parent_value_disagrees_with_child", f"{where} at t={t}: the parent's value() shows {pv!r} for child {nm_}, which itself is valid and reads {cd_.get('val')!r}", dict(feats)))
+                    return
     if k in ("TSB", "TSL") and "ch" in d and m is not None:
         subs = [cs for _, cs in schema[1]] if k == "TSB" else [schema[1]] * schema[2]
         for i, (cd, cs) in enumerate(zip(d["ch"], subs)):
